@@ -92,8 +92,8 @@ def measure_tb():
 
 class C13(Prop):
     id = 'C13'
-    budgets = {'quick': 2200, 'thorough': 26000}
-    time_limit = {'quick': 60, 'thorough': 540}
+    budgets = {'quick': 1400, 'thorough': 22000}
+    time_limit = {'quick': 45, 'thorough': 540}
     rule = ('ConcurrentTestSuite / ConcurrentStreamTestSuite (half each) over 0-4 hashable workers running 0-3 PlaceHolder tests of arbitrary outcome '
             '(suite flavour: with tags), workers raising from run(), worker-side faults of the caller\'s TestResult (suite), make_tests raising after k sub-suites, '
             'an interrupt at main\'s m-th queue.get(), the caller\'s result raising at main\'s j-th call (stream: status; suite: stop in the abort path); '
@@ -106,6 +106,25 @@ class C13(Prop):
                    'sub-suites are hashable, distinct TestCase-like objects; a run() that raises raises an Exception subclass (a BaseException is deliberately not turned into broken-runner by the code)',
                    'the number of chunks of a broken-runner traceback is measured on the implementation and given to the model (stream flavour)',
                    'per-worker results are the default ones (no wrap_result)']
+
+    manifest = {
+        'text': 'Theorems for every number of workers, worker programs (0.. tests of any outcome, run() raising), fault plans (worker-side faults of the caller\'s '
+                'TestResult, make_tests failing after k sub-suites, an interrupt at any queue.get(), the caller\'s result raising at any call of run()\'s thread) and every '
+                'schedule (arbitrary list of thread ids, unbounded), for both ConcurrentTestSuite and ConcurrentStreamTestSuite: no reachable state is stuck and every run ends '
+                '(run() returns or raises, every started thread ends); on normal return every sub-suite was started, ran once, has terminated and every event it emitted reached '
+                'the caller\'s result exactly once in that worker\'s order (stream: with its route code; suite: one whole well-shaped block at a time - C12\'s invariant incl. '
+                'main\'s stop() calls); on abort what was delivered is still a prefix per worker; a raising sub-suite yields exactly one errored broken-runner test; if run() '
+                'raises the exception is the injected one and every registered worker is told to stop (suite: one stop() per registered worker). PARTIAL: the stream-flavour stop '
+                'clause is proved outside the finding class lostStop (a started worker that has not yet forwarded startTestRun clears the stop request) - the model exhibits the '
+                'defect (witness theorem) and the check reproduces it on the real code. The hand-written model is tied to the code by a differential check that runs the real suites '
+                'in real threads under a deterministic scheduler (bounded-pre-emption exhaustive + random schedules, all fault kinds).',
+        'note': 'partial: (1) known finding lostStop (KNOWN_FINDINGS.txt) - holds_model_partial / C13_abort_partial exclude that class; (2) the theorems cover every '
+                'interleaving of the model\'s atomic steps (operations on queue / semaphore / caller\'s result, thread start/join); CPython pre-emption is reached only through '
+                'the scheduler-driven correspondence. trusted: Lean kernel, TTV/Model/Conc.lean + ConcSuite.lean, harness/sched.py and the plug-in; Thread/Queue/Semaphore '
+                'semantics modelled; KeyboardInterrupt modelled as an exception at queue.get(); traceback chunk count measured',
+        'technique': 'Lean 4 invariant proofs over a small-step interleaving semantics (all schedules, no bound) with a termination measure, executable spec shared with a '
+                     'differential correspondence check under a deterministic thread scheduler',
+    }
 
     def __init__(self):
         self.stats = {}
